@@ -98,6 +98,21 @@ class TagDevice(nfc.clf.device.Device):
             raise BudgetExceeded(idx)
         fault = self.script.get(idx) or self.script.get(str(idx))
         cmd = None if data is None else bytes(data)
+        if fault is not None and fault[0] == "refuse":
+            # not a link fault: the tag itself refuses the command (where the
+            # tag type has such an answer; a lost command otherwise)
+            refuse = getattr(self.tag, "refuse", None)
+            if refuse is None or cmd is None:
+                fault = ("timeout", "cmd")
+            else:
+                rsp = None
+                if self.present and not self.tag.dead:
+                    rsp = refuse(cmd)
+                self.xlog.append((idx, cmd, None if rsp is None
+                                  else bytes(rsp), "refused"))
+                if rsp is None:
+                    raise nfc.clf.TimeoutError("sim: no response")
+                return bytearray(rsp)
         if fault is not None and fault[1] == "cmd":
             self.xlog.append((idx, cmd, "ERR:" + fault[0], "cmd"))
             raise ERR[fault[0]]("sim: injected %s (command lost)" % fault[0])
